@@ -112,6 +112,13 @@ partial def step (args : List String) : String :=
       let (_, _, x) := refUpload s n idx sub
       showX x
     | _, _, _, _, _ => "bad-op"
+  | ["up2", od, cb, pre, idx, sub] => match parseOd od, parseCb cb, parseFrames pre, idx.toNat?, sub.toNat? with
+    | some od, some cb, some pre, some idx, some sub =>
+      let (s, n) := preRun (mkNode od cb) pre
+      let (s1, n1, x) := refUpload s n idx sub
+      let (_, _, y) := refUpload s1 n1 idx sub
+      s!"{showX x} ; {showX y}"
+    | _, _, _, _, _ => "bad-op"
   | ["down", od, cb, pre, idx, sub, hex, exp, chunks] =>
     match parseOd od, parseCb cb, parseFrames pre, idx.toNat?, sub.toNat?, parseHex hex, parseBool exp, parseNatList chunks with
     | some od, some cb, some pre, some idx, some sub, some data, some exp, some chunks =>
